@@ -13,13 +13,17 @@ import (
 // accessors whose value is decided completely by a decision-table rule: reads beyond their declared
 // inputs are shown there not to matter (the table varies those inputs too)
 var decidedByTable = map[string]string{
-	"calendar.(*Foto).IsMonthZhai":        "R17.7",
-	"calendar.(*Foto).IsDayZhaiShuoWang":  "R17.7",
-	"calendar.(*Foto).IsDayZhaiSix":       "R17.7",
-	"calendar.(*Foto).IsDayZhaiTen":       "R17.7",
+	"calendar.(*Foto).IsMonthZhai":       "R17.7",
+	"calendar.(*Foto).IsDayZhaiShuoWang": "R17.7",
+	"calendar.(*Foto).IsDayZhaiSix":      "R17.7",
+	"calendar.(*Foto).IsDayZhaiTen":      "R17.7",
+	"calendar.(*Lunar).GetFestivals":     "R13.4",
+	// a table over a day algebra in which the components of a moment are opaque (compared like with like or handed
+	// to a constructor together): a date taken apart and calculated with is reported there as not followed
 	"calendar.(*Lunar).GetOtherFestivals": "R13.5",
-	"calendar.(*Lunar).GetFestivals":      "R13.4",
 }
+
+var equivalentInputs = map[string]map[string]string{}
 
 func r17_7(c *Ctx, r *Report) {
 	const rule = "R17.7"
